@@ -8,6 +8,7 @@ import random
 
 import numpy as np
 
+from .. import common
 from ..gen import pdbfmt
 from ..gen import structures as S
 from ..mon import build, torsion
@@ -35,6 +36,11 @@ def cases(tier, seed):
     nfit, per, ntor = (16, 1500, 16) if tier == "quick" else (256, 25000, 1200)
     out = [{"kind": "fit", "seed": seed * 1000 + i, "n": per} for i in range(nfit)]
     out += [{"kind": "torsion", "seed": seed * 1000 + i} for i in range(ntor)]
+    # multi-step sequences: torsions requested on the biomolecule a full run returned (hydrogens built, side chains
+    # flipped / hydroxyls re-placed by the optimiser), after a fresh debumper refreshed the stored angles; and after
+    # coordinates were restored from a snapshot
+    npost = 8 if tier == "quick" else 400
+    out += [{"kind": "postrun", "seed": seed * 1000 + 500 + i} for i in range(npost)]
     return out
 
 
@@ -215,6 +221,64 @@ def run_torsion(spec, res):
     res.sample = {"kind": "torsion", "seed": spec["seed"], "sequence": seq, "torsion_calls": tcalls}
 
 
+def run_postrun(spec, res):
+    from pdb2pqr.debump import Debump
+    from .. import pipeline
+    rng = random.Random(spec["seed"])
+    pool = ["HIS", "ASN", "GLN", "SER", "THR", "TYR", "ILE", "LYS", "ARG", "GLU", "ASP", "MET", "LEU", "TRP", "CYS", "PHE"]
+    seq = [rng.choice(pool) for _ in range(rng.randint(5, 9))]
+    pep = S.peptide(seq, rng)
+    wat = [S.water(S.centroid(pep), rng, spread=6.0) for _ in range(rng.randint(0, 4))]
+    items, truth = S.assemble([{"id": "A", "start": 1, "residues": pep}] + ([{"id": "W", "start": 201, "residues": wat}]
+                                                                            if wat else []))
+    ff = rng.choice(common.FFS)
+    r = pipeline.run(pdbfmt.to_text(items), [f"--ff={ff}"] + rng.choice([[], [], ["--nodebump"]]), workname="c15")
+    if not r.ok:
+        res.count("postrun_failed")
+        return
+    bio = r.bio
+    deb = Debump(bio)
+    from pdb2pqr.cells import Cells
+    deb.cells = Cells(2)
+    deb.cells.assign_cells(bio)
+    # the code's own protocol before any torsion work (debump_biomolecule, initialize_*_optimization): refresh the
+    # stored angles from the coordinates
+    bio.calculate_dihedral_angles()
+    bio.set_donors_acceptors()
+    bio.update_internal_bonds()
+    bio.set_reference_distance()
+    res.count("postrun_structures")
+    for residue in bio.residues:
+        ref = getattr(residue, "reference", None)
+        if ref is None or not hasattr(residue, "dihedrals"):
+            continue
+        for anglenum, dname in enumerate(ref.dihedrals):
+            names = dname.split()
+            if anglenum >= len(residue.dihedrals) or residue.dihedrals[anglenum] is None or \
+                    not all(residue.has_atom(n) for n in names):
+                continue
+            for step in range(3):
+                if step == 1:
+                    # coordinates put back from a snapshot, then the stored angles refreshed again
+                    for a in residue.atoms:
+                        a.x, a.y, a.z = snap[a.name]
+                    bio.calculate_dihedral_angles()
+                angle = rng.choice([rng.uniform(-180, 180), float(rng.choice([0, 60, -60, 120, 180, -120]))])
+                snap = {a.name: (a.x, a.y, a.z) for a in residue.atoms}
+                before = torsion.snapshot(residue)
+                deb.set_dihedral_angle(residue, anglenum, angle)
+                after = torsion.snapshot(residue)
+                res.count("torsion_calls")
+                res.count("postrun_torsion_calls")
+                res.nt("postrun", residue.name, anglenum, step)
+                res.cell("postrun", residue.name, anglenum)
+                for clause, mech, detail in torsion.check_torsion_change(residue, names, angle, before, after):
+                    if clause in ("angle", "axisdist"):
+                        res.violate(f"torsion/{mech}/after-full-run", f"{residue} {dname} (step {step}): {detail}",
+                                    residue=str(residue), dihedral=dname, angle=angle, seq=seq, ff=ff, seed=spec["seed"])
+    res.sample = {"kind": "postrun", "seed": spec["seed"], "sequence": seq}
+
+
 def setup_worker():
     build.quiet()
 
@@ -223,6 +287,8 @@ def run_case(spec):
     res = Res()
     if spec["kind"] == "fit":
         run_fit(spec, res)
+    elif spec["kind"] == "postrun":
+        run_postrun(spec, res)
     else:
         run_torsion(spec, res)
     return res
